@@ -130,6 +130,29 @@ def _existing_leaf(t):
     return x[0] if x is not t else x
 
 
+def _msh(t):
+    if t.classname != "Message":
+        raise LookupError("no header in this target")
+    return t.msh
+
+
+def _copy_two(t, v, by_index):
+    """t.<child> = <the children of that name of another element>, which holds two repetitions, the second of which a
+    STRICT target cannot take (the child is not repeatable)"""
+    from hl7apy.consts import VALIDATION_LEVEL as VL
+    nm, adder = {"Segment": ("pid_1", "add_field"), "Field": ("cx_1", "add_component"),
+                 "Component": ("hd_1", "add_subcomponent")}.get(t.classname, (None, None))
+    if nm is None or (t.classname == "Segment" and t.name != "PID") or (t.classname == "Field" and t.name != "PID_3"):
+        raise LookupError("no such child in this target")
+    src = type(t)(t.name, version=v, validation_level=VL.TOLERANT)
+    getattr(src, adder)(nm.upper()).value = "7"
+    getattr(src, adder)(nm.upper()).value = "8"
+    if by_index:
+        getattr(t, nm)[0] = getattr(src, nm)
+    else:
+        setattr(t, nm, getattr(src, nm))
+
+
 OTHERS = []      # further elements an operation involved (the parent that refused, ...): their listings are observed too
 
 
@@ -168,6 +191,12 @@ def operations(v, L, other):
         ("<existing child>=datatype object of another class", lambda t: setattr(t, {"Segment": "pid_1" if t.name == "PID" else "zz_1", "Field": "cx_1", "Component": "hd_1"}.get(t.classname, "zz_1"), _wrong_dt(v, L))),
         ("<absent child>=datatype object of another class", lambda t: setattr(t, {"Segment": "pid_23" if t.name == "PID" else "zz_1", "Field": "cx_2", "Component": "hd_3"}.get(t.classname, "zz_1"), _wrong_dt(v, L))),
         ("<existing child>[0]=datatype object of another class", lambda t: getattr(t, {"Segment": "pid_1" if t.name == "PID" else "zz_1", "Field": "cx_1", "Component": "hd_1"}.get(t.classname, "zz_1")).__setitem__(0, _wrong_dt(v, L))),
+        ("<child>=the repetitions of a TOLERANT element of the same name (two of them)", lambda t: _copy_two(t, v, False)),
+        ("<child>[0]=the repetitions of a TOLERANT element of the same name (two of them)", lambda t: _copy_two(t, v, True)),
+        ("msh_2.value=over-long text", lambda t: setattr(_msh(t).msh_2, "value", long_text)),
+        ("msh_2.value=a number", lambda t: setattr(_msh(t).msh_2, "value", 5)),
+        ("msh_1.value=over-long text", lambda t: setattr(_msh(t).msh_1, "value", long_text)),
+        ("msh_1.value=a number", lambda t: setattr(_msh(t).msh_1, "value", 5)),
         ("add a far additional field of another version", lambda t: t.add(Field("%s_%d" % (t.name, 40), version=("2.4" if v != "2.4" else "2.5"), validation_level=L))),
         ("add a far additional field of another level", lambda t: t.add(Field("%s_%d" % (t.name, 45), version=v, validation_level=other))),
     ]
